@@ -38,11 +38,11 @@ KINDS = sorted(FILES) + ["missing", "directory"]
 
 
 class Setup(object):
-    def __init__(self, ctx, kind="delimited"):
+    def __init__(self, ctx, kind="delimited", header=0):
         self.kind = kind
-        self.dir = os.path.join(ctx.tmp, "c18_%s" % kind)
+        self.dir = os.path.join(ctx.tmp, "c18_%s_h%d" % (kind, header))
         os.makedirs(self.dir, exist_ok=True)
-        self.model = RM.CidModel(kind, [dict(f) for f in FIELDS], CHECKS)
+        self.model = RM.CidModel(kind, [dict(f) for f in FIELDS], CHECKS, header=header)
         if kind == "fixed":
             self.model.fields[0]["length"] = "2"
             self.model.fields[1]["length"] = "1"
@@ -128,11 +128,32 @@ def invoke(argv):
         return "SystemExit(%s)" % exit_.code
 
 
+def invoke_quietly(argv):
+    devnull = open(os.devnull, "w")
+    old_err = sys.stderr
+    sys.stderr = devnull
+    try:
+        return invoke(argv)
+    finally:
+        sys.stderr = old_err
+        devnull.close()
+
+
 def check(ctx, setup, cid, files, until, subprocess_too=False):
-    case = {"format": setup.kind, "cid": cid, "files": list(files), "until": until}
+    case = {"format": setup.kind, "header": setup.model.header, "cid": cid, "files": list(files), "until": until}
     want = expected_code(setup, cid, files, until)
     if want is None:
-        ctx.unjudged("both a rejected and an unreadable file in one invocation")
+        # 1 or 3 are both defensible - but every file is judged independently of the others and of their order, so all
+        # orders of the same files must give the same answer
+        ctx.unjudged("both a rejected and an unreadable file in one invocation: 1 or 3")
+        codes = {}
+        for order in itertools.permutations(files):
+            argv = ["cutplace", "--log", "critical"] + (["--until", until] if until is not None else []) + [setup.cids[cid]] + [setup.files[n] for n in order]
+            codes[" ".join(order)] = invoke_quietly(argv)
+        ctx.case(dict(case, orders=sorted(codes)), True)
+        ctx.count("order-independence.judged")
+        if len(set(codes.values())) != 1 or not set(codes.values()) <= {1, 3}:
+            ctx.violation("C18:exit-code-depends-on-file-order", case, "the same data files in another order give another exit code", expected="one of 1, 3 for every order", observed=codes)
         return
     ctx.case(case, len(files) >= 1)
     argv = ["cutplace", "--log", "critical"]
@@ -140,14 +161,7 @@ def check(ctx, setup, cid, files, until, subprocess_too=False):
         argv += ["--until", until]
     argv.append(setup.cids[cid])
     argv += [setup.files[name] for name in files]
-    devnull = open(os.devnull, "w")
-    old_err = sys.stderr
-    sys.stderr = devnull
-    try:
-        got = invoke(argv)
-    finally:
-        sys.stderr = old_err
-        devnull.close()
+    got = invoke_quietly(argv)
     ctx.count("invocations.in-process")
     if got != want:
         key = "C18:exit-code:%s-instead-of-%s" % (got, want)
@@ -260,6 +274,15 @@ def run(ctx):
                     check(ctx, setup, cid, files, until, subprocess_too=(index % sub_every == 0))
     if ctx.mine(0):
         eio_cases(ctx, setup)
+    # ---- CIDs with header rows: the limit counts them, on the command line exactly as in the API
+    for header in (1, 2):
+        with_header = Setup(ctx, "delimited", header=header)
+        for n in range(0, 3):
+            for files in itertools.permutations(["accepted", "field-rejected", "unique-rejected", "late-reject", "distinct-fails", "missing"], n):
+                for until in (None, "-1", "0", "1", "2", "3", "4"):
+                    index += 1
+                    if ctx.mine(index):
+                        check(ctx, with_header, "valid", files, until, subprocess_too=(index % (sub_every * 3) == 0))
     for kind in ("fixed", "ods", "excel"):
         other = Setup(ctx, kind)
         for n in range(0, 3):
@@ -275,7 +298,7 @@ def run(ctx):
 
 
 def replay(ctx, case):
-    setup = Setup(ctx, case.get("format", "delimited"))
+    setup = Setup(ctx, case.get("format", "delimited"), header=case.get("header", 0))
     if "eio_after_characters" in case:
         eio_cases(ctx, setup)
     else:
